@@ -6,7 +6,7 @@
    later in the list, a timer may run long after it woke up (also after it was cancelled meanwhile).
    `Inv` (Proofs.v) holds in every reachable state (C10_invariant).  Examples.v (imported so that it is
    re-checked) replays the defects of the code before the fix on variant Legacy. *)
-From CF Require Import Common.Bytes C10.Model C10.Proofs C10.Proofs_b C10.Examples.
+From CF Require Import Common.Bytes C10.Model C10.Proofs C10.Proofs_b C10.Proofs_c C10.Gen_Drivers C10.Proofs_d C10.Examples.
 Open Scope Z_scope.
 
 (* Every reachable state: patterns are distinct keys; each pending pattern has a live (armed or
@@ -116,3 +116,42 @@ Theorem C10_close_forgets_everything : forall s r,
   ~ pending (fst (step Fixed s Close)) r /\ (link s <> None -> ~ pending (fst (step Fixed s LinkErr)) r).
 Proof. intros s r. split; [apply close_nothing_pending | apply linkerr_nothing_pending]. Qed.
 Print Assumptions C10_close_forgets_everything.
+
+(* ---- leftover timers are harmless ---- *)
+(* A timer that is not the pending timer of its pattern (replaced by a newer request, its pattern
+   answered, forgotten by close_link / a link error) transmits nothing when it runs, in ANY state, and
+   changes nothing but its own status — the identity test in send_packet(resend=True). *)
+Theorem C10_stale_timer_fires_silently : forall s tid t,
+  nth_error (timers s) (Z.to_nat tid) = Some t ->
+  lookup (t_pat t) (pats s) <> Some (Z.to_nat tid) ->
+  let r := step Fixed s (RunT tid) in
+  snd r = [] /\ pats (fst r) = pats s /\ link (fst r) = link s /\ nr (fst r) = nr s /\ now (fst r) = now s /\
+  length (timers (fst r)) = length (timers s) /\
+  (forall j, j <> Z.to_nat tid -> nth_error (timers (fst r)) j = nth_error (timers s) j).
+Proof. exact stale_timer_silent. Qed.
+Print Assumptions C10_stale_timer_fires_silently.
+
+(* Whether such timers are cancelled, left armed, have woken up or are done cannot be observed: two
+   states that differ only in the status of timers that are not pending (`sim`) transmit exactly the same
+   in every continuation.  Hence not cancelling a replaced/answered/forgotten timer does not affect any
+   clause of the property (the correspondence step therefore compares the status of pending timers only). *)
+Theorem C10_leftover_timers_unobservable : forall evs s s', Inv s -> sim s s' ->
+  snd (run Fixed s' evs) = snd (run Fixed s evs) /\ sim (fst (run Fixed s evs)) (fst (run Fixed s' evs)).
+Proof. exact sim_run. Qed.
+Print Assumptions C10_leftover_timers_unobservable.
+
+(* ---- the link drivers (Gen_Drivers.v is regenerated from cflib/crtp/*.py on every run) ---- *)
+(* The base driver and the radio driver ask for resending (the radio until safelink is confirmed, and for
+   good if it is not); the USB driver, and the radio driver once safelink is confirmed, do not: opening
+   such links / that switch are `reliable_ev` events, so C10_reliable_link_no_retry applies to them. *)
+Theorem C10_driver_flags :
+  drv_default_nr = true /\ drv_radio_initial_nr = true /\ drv_radio_nr_after false = true /\
+  reliable_ev (Open drv_usb_nr) /\ reliable_ev (SetNR (drv_radio_nr_after true)).
+Proof. exact driver_flags. Qed.
+Print Assumptions C10_driver_flags.
+
+Theorem C10_usb_and_safelink_no_retry : forall evs,
+  Forall (fun e => match e with Open n => n = drv_usb_nr | SetNR b => b = drv_radio_nr_after true | _ => True end) evs ->
+  no_retry_state (fst (run Fixed init evs)).
+Proof. exact usb_and_safelink_no_retry. Qed.
+Print Assumptions C10_usb_and_safelink_no_retry.
